@@ -12,7 +12,7 @@ RULE = ("every GT string over alleles {., 0,1,2,3,7,10} x separators {/,|} x plo
         "1477 strings, plus the whole-field '.'): (a) classification function vs model; (b) each GT in a selected column of a "
         "one-record VCF run through `sfs create -vv` (stdout, exit status, per-sample trace reason) vs the model of the run; "
         "(c) the same GT in an unselected column must give the output of a run without it; (d) the same through BCF "
-        "(noodles writer; strings noodles cannot encode are counted as skipped). non-trivial = GT is not the reference 0/0")
+        "(noodles writer; strings noodles cannot encode are counted as skipped). non-trivial = GT is not the reference 0/0; two populations with one projected to no individuals (shape 1) x every class triple")
 
 ALLELES = [".", "0", "1", "2", "3", "7", "10"]
 WIDE = ["256", "257", "65537", "4294967296", "4294967297"]      # indices that wrap to 0 / 1 in u8, u16, u32
@@ -141,6 +141,10 @@ def check(rep, tier, seed):
         for proj in ("-", "s:3", "s:7"):
             tcases.append("sites a,b,c ALL %s %s;0/1,0/1,0/1" % (proj, ",".join(t3)))
         tcases.append("sites a,b,c a:A,c:B - %s" % ",".join(t3))
+        # two populations, one of them projected down to NO individuals (shape 1) or to one: a non-diploid genotype in it is
+        # an error all the same, a missing one leaves the population without enough data
+        for proj in ("i:1,0", "i:0,1", "s:1,1", "s:3,1", "i:0,0"):
+            tcases.append("sites a,b,c a:A,b:A,c:B %s %s;0/1,0/1,0/1" % (proj, ",".join(t3)))
     from fractions import Fraction
     compare_cases(rep, "record-class-interaction", tcases, tol=Fraction(1, 10**9), nontrivial=lambda c, m: " E" in m,
                   classify=lambda c, m, i: "classify:interaction", spec=True)
